@@ -39,6 +39,7 @@ NamesOf(k, noise, i) ==
                   [] k = "tmpl"      -> <<N("U", i)>>      \* a template that is handed an argument (a foreign type) it never mentions
                   [] k = "group1"    -> <<N("GS", i)>>     \* a parenthesised group with a single entry
                   [] k = "octal"     -> <<N("O", i)>>      \* a legacy octal literal (gofumpt spells it 0o... from go 1.13 on)
+                  [] k = "oddcomment" -> <<N("L", i)>>     \* a comment in a place where go/printer needs a second pass to settle
     IN IF noise = "two_on_one" THEN base \o <<N("X", i)>> ELSE base
 
 VARIABLES frags, mode, module
